@@ -61,6 +61,13 @@ def subtrace(trace_path, runs_subset, suffix):
 KF_SPURIOUS_EMPTY = "KF-C02-spurious-empty"
 
 
+def kf_spurious_empty_applies(scenario):
+    """the recorded finding concerns AtomicMove's lock-free dequeue only: the rings / pools / queues / channels built on the atomic ring.
+       A spurious 'empty' of anything else (the full-sync ring, crossbeam, the stacks) is a violation, whatever the relaxed rule would explain."""
+    sut = str(scenario.get("sut") or (scenario.get("free") or {}).get("sut", ""))
+    return "atomic" in sut and "stack" not in sut
+
+
 def judge(check, scenarios, name, trace, runs, v, module, consts, allow_relax=True, l1_module="Trace_LinQueue", l1_consts=None):
     """Turns the result of a (strict-rule) trace validation into verdicts.
        - L1 invariant violations are re-judged under the relaxed rule of the recorded known finding;
@@ -98,6 +105,7 @@ def judge(check, scenarios, name, trace, runs, v, module, consts, allow_relax=Tr
             for e in v2["errors"]:
                 check.tool_errors.append("relaxed re-validation %s: %s" % (name, e))
             still_keys = set((x["run"]["scn"], x["run"]["run"]) for x in v2["violations"]) | set((x["run"]["scn"], x["run"]["run"]) for x in v2["mismatches"])
+            still_keys |= set(k for k in bad_runs if not kf_spurious_empty_applies(by_id.get(k[0], {})))
             still = {k: x for k, x in bad_runs.items() if k in still_keys}
             explained = {k: x for k, x in bad_runs.items() if k not in still_keys}
             if explained:
